@@ -127,6 +127,17 @@ def load_known_findings():
 # --------------------------------------------------------------------------
 # context
 # --------------------------------------------------------------------------
+_SCHEMA_TYPED = {"states": int, "transitions": int, "programs": int, "disagreements_checked": int, "obligations": int,
+                 "discharged": int, "evaluations": int, "distinct_nontrivial": int, "traces_validated_against_impl": int,
+                 "explanation": str, "rule": str, "checker_cmd": str, "exhaustive": bool, "samples": list, "trusted_base": list}
+
+
+def _extra_ok(k, v) -> bool:
+    """extra coverage keys must not shadow a schema-typed key with a value of another type"""
+    t = _SCHEMA_TYPED.get(k)
+    return t is None or (isinstance(v, t) and not (t is int and isinstance(v, bool)))
+
+
 class Ctx:
     def __init__(self, pid: str, tier: str, seed: int):
         self.pid = pid
@@ -473,7 +484,7 @@ class Ctx:
                 "search_budget_s": self.search_budget_s,
                 "timings_s": self.timings,
                 "notes": self.notes,
-                **self.extra,
+                **{(k if _extra_ok(k, v) else k + "_note"): v for k, v in self.extra.items()},
             },
             "assumptions": self.assumptions,
             "wall_s": round(time.time() - self.t0, 2),
